@@ -3,7 +3,7 @@
 All sequences of byte fragments up to a length bound x option settings x every single-rejection policy of the error
 callback, executed in the ASan/UBSan build; the contract's invariants are evaluated in-process (harness/cifx.c,
 command `contract`) for every execution."""
-import sys, os, itertools, json
+import sys, os, itertools, json, time
 sys.path.insert(0, os.path.dirname(os.path.abspath(__file__)))
 from lib import *
 
@@ -91,8 +91,11 @@ def main():
     cfg = os.environ.get('C03_CFG', 'san')
     L = int(os.environ.get('C03_L', 2))
     LD = int(os.environ.get('C03_LD', 3 if tier == 'quick' else 4))
+    base_sets = option_sets('quick')
     osets = option_sets(tier)
     jobs = []
+    cross_inputs = []
+    dl = deadline(tier, 600, 2700)
     # every fragment sequence up to L under every option set; up to LD under the default options and three corners
     CORE = FRAGS[:26]
     for n in range(0, LD + 1):
@@ -100,14 +103,18 @@ def main():
             data = b''.join(seq)
             if n <= L:
                 # a brand-new target costs a cif_create per parse (16 ms under ASan): default options only
-                jobs.append((data, osets[:1], ('', 'target=new', 'target=C0')))
-                jobs.append((data, osets[1:], ('', 'target=C0') if tier == 'quick' else ('', 'target=new', 'target=C0')))
+                jobs.append((data, base_sets[:1], ('', 'target=new', 'target=C0')))
+                jobs.append((data, base_sets[1:], ('', 'target=C0')))
+                if tier != 'quick':
+                    cross_inputs.append((n, data))
             elif n == 3:
                 core = all(f in CORE for f in seq)
                 if tier == 'quick':
                     jobs.append((data, [''], ('', 'target=C0') if core else ('',)))
                 else:
-                    jobs.append((data, ['', 'p2=-1', 'p2=20 depth=-1 h=1'], ('', 'target=new', 'target=C0') if core else ('', 'target=new')))
+                    jobs.append((data, ['', 'p2=-1', 'p2=20 depth=-1 h=1'], ('', 'target=C0')))
+                    if core:
+                        jobs.append((data, [''], ('target=new',)))
             elif all(f in CORE[:18] for f in seq):
                 jobs.append((data, [''], ('',)))
     # grammar-level phrases (each ends with whitespace): duplicates, loops, frames, composites in every order
@@ -119,7 +126,7 @@ def main():
                 continue
             jobs.append((b''.join(seq), [''], ('target=C0',) if n >= 4 else ('', 'target=C0')))
     for w in WHOLE:
-        jobs.append((w, osets[:19], ('', 'target=new')))
+        jobs.append((w, base_sets, ('', 'target=new')))
     # every kind of token ending exactly at, just before and just after a 4096-byte read boundary, followed by every kind of
     # trouble: an error reported (and rejected) while the scanner refills its buffer must not get lost
     TOKENS = [b';text\n;', b"'q s'", b'"q"', b"'''t\nq'''", b'bare', b'[1 2]', b"{'k':v}", b'#cmt', b'?', b"[{'k':[", b'\n;\\\nfol\\\nded\n;']
@@ -141,8 +148,40 @@ def main():
         jobs.append((b"#\\#CIF_2.0\ndata_a\n_y " + b'y' * 300 + b"\n_x '''" + b'v' * nunits + b"'''\n", [''], ('', 'target=new')))
     jobs.append((b'data_a _x ' + b'[' * 100000, [''], ('',)))
     jobs.append((b'data_a _x ' + b"{'k':" * 50000, [''], ('',)))
-    total = nerr = 0
+    counters = [0, 0]
     codes = set()
+    # thorough: the full cross product of the option values, in slices of 31 option sets, inputs in size order, until the deadline
+    phases = [('base', jobs)]
+    cross = [o for o in osets if o not in base_sets]
+    if tier != 'quick':
+        for n in range(0, L + 1):
+            ins = [d for (k, d) in cross_inputs if k == n]
+            for i in range(0, len(cross), 31):
+                phases.append(('cross product: %d-fragment inputs, option sets %d..%d of %d' % (n, i + 1, min(i + 31, len(cross)), len(cross)),
+                               [(d, cross[i:i + 31], ('', 'target=C0')) for d in ins]))
+    done_phases, skipped = [], []
+    for pname, pjobs in phases:
+        if pname != 'base' and time.time() > dl:
+            skipped.append(pname)
+            continue
+        done_phases.append(pname)
+        run_jobs(pjobs, cfg, rep, codes, counters)
+    total, nerr = counters
+    return rep.finish({'evaluations': total, 'distinct_nontrivial': nerr, 'phases_completed': len(done_phases), 'phases_skipped_at_deadline': skipped[:3] + (['... %d in all' % len(skipped)] if len(skipped) > 3 else []),
+                       'rule': RULE % (L, len(FRAGS), len(base_sets), len(osets), LD),
+                       'samples': [FRAGS[1].decode() + FRAGS[7].decode(), "data_a'''"], 'distinct_error_codes_observed': sorted(codes), 'build': cfg, 'exhaustive': not skipped},
+                      ['the invariants are evaluated by harness/cifx.c:cmd_contract; sanitizer reports, crashes and hangs count as violations'])
+
+
+RULE = ('all sequences of at most 4 (thorough 5) of 16 grammar-level phrases (data names, loop headers, values, frames, composites; stored into a pre-populated CIF); all sequences of at most %d of the %d byte fragments under %d one-factor-at-a-time and corner option settings x target {none, new, pre-populated} '
+        '(thorough: also under the full cross product of %d settings x target {none, pre-populated}, in slices until the deadline), sequences of at most %d fragments under the default options and corner settings, '
+        '11 kinds of token ending at a 4096-byte read boundary -1/0/+1 followed by 13 kinds of trouble (CIF 2.0 and 1.1); whole-input UTF-16/32 renderings with and without BOM and with unpaired surrogates, tokens of 65599..262400 units, 100000-deep nesting; for each: the all-accepting callback, then every policy '
+        '"accept k-1 errors, answer r at the k-th" (k <= 10; r in CIF_CLIENT_ERROR, the reported code, -1), cif_parse_error_die, NULL callback, NULL options, cif_parse_error_ignore; '
+        'evaluations = (input, options, target) cells, each comprising all those parses; non-trivial = cells with at least one reported error')
+
+
+def run_jobs(jobs, cfg, rep, codes, counters):
+    total = nerr = 0
     for res in pmap(work, chunked(jobs, max(1, len(jobs) // (NPROC * 12))), (cfg,)):
         if isinstance(res, dict):
             rep.violation({'kind': 'executor'}, res)
@@ -157,13 +196,8 @@ def main():
                 kind = 'negative callback answer not honoured'
             rep.violation({'kind': kind, 'input': data[:40].hex() if len(data) <= 40 else '%s...(%d bytes)' % (data[:16].hex(), len(data))},
                           {'input_hex': data[:4000].hex(), 'input_len': len(data), 'options': opts, 'target': target, 'message': msg[:4000]})
-    return rep.finish({'evaluations': total, 'distinct_nontrivial': nerr,
-                       'rule': 'all sequences of at most 4 (thorough 5) of 16 grammar-level phrases (data names, loop headers, values, frames, composites; stored into a pre-populated CIF); all sequences of at most %d of the %d byte fragments under %d option settings x target {none, new, pre-populated}, sequences of at most %d fragments under the default options and corner settings, '
-                               '11 kinds of token ending at a 4096-byte read boundary -1/0/+1 followed by 13 kinds of trouble (CIF 2.0 and 1.1); whole-input UTF-16/32 renderings with and without BOM and with unpaired surrogates, tokens of 65599..262400 units, 100000-deep nesting; for each: the all-accepting callback, then every policy '
-                               '"accept k-1 errors, answer r at the k-th" (k <= 10; r in CIF_CLIENT_ERROR, the reported code, -1), cif_parse_error_die, NULL callback, NULL options, cif_parse_error_ignore; '
-                               'evaluations = (input, options, target) cells, each comprising all those parses; non-trivial = cells with at least one reported error' % (L, len(FRAGS), len(osets), LD),
-                       'samples': [FRAGS[1].decode() + FRAGS[7].decode(), "data_a'''"], 'distinct_error_codes_observed': sorted(codes), 'build': cfg, 'exhaustive': True},
-                      ['the invariants are evaluated by harness/cifx.c:cmd_contract; sanitizer reports, crashes and hangs count as violations'])
+    counters[0] += total
+    counters[1] += nerr
 
 
 if __name__ == '__main__':
